@@ -183,6 +183,7 @@ void module_antidepends(const char *name, ...)
         if (!other)
             log_message(log_core, LOG_FATAL, "Module %s anti-depends on unloadable module %s.", loading_module->name, name);
         const_string_vector_append(&other->depends, loading_module->name);
+        const_string_vector_append(&loading_module->rdepends, other->name);
     }
     va_end(args);
 }
